@@ -115,7 +115,10 @@ def call_site_task():
 
 def build(tier, seed):
     set_tier(tier)
-    tasks = [a_task(PROP, _analyse), a_task(PROP, _ics), call_site_task(), bounded_task(seed, tier)]
+    from contracts import readerblocks
+    tasks = [a_task(PROP, _analyse), a_task(PROP, _ics), call_site_task(),
+             Task(f"{PROP}.S.include", PROP, "FortranReader.include", lambda: readerblocks.include_forwards_configuration(PROP, names=("fixed", "length_limit"), replay=lambda: __import__("bounded.c14", fromlist=["x"]).included_fixed_form())),
+             bounded_task(seed, tier)]
     meta = {
         "trusted_base": TRUSTED_BASE,
         "assumptions": PYVC_ASSUMPTIONS + [
